@@ -116,7 +116,7 @@ func runC03(r *ev.Run) {
 	r.Rule = "attack catalogue against honest sessions in both roles using a raw Noise/P2PKE attacker with its own key: replayed InitHello bodies, RespHello/InitDone with missing/garbage/own/lifted/cross-purpose signatures, early data, forged messages injected at every point of an honest handshake, truthful controls; IsReady/RemoteKey/Send/isApp sampled after every delivered message. non-trivial = the forged message was well-formed enough to reach the signature/AEAD checks; distinct = (attack, role, injection point, victim state)"
 	r.Assumptions = []string{"cryptographic soundness of Ed25519/Noise is trusted; the adversary is the concrete catalogue, composed randomly"}
 	attacks := c03Catalogue()
-	n := pick(r, 120, 6000)
+	n := pick(r, 400, 6000)
 	// a few honestly established sessions live through the whole run: thousands of other handshakes (with other keys, forged
 	// and genuine) happen in the same process meanwhile, and at the end each must still report the key it authenticated.
 	type longLived struct {
